@@ -765,6 +765,228 @@ def _c15_self_spellings(rlib, deps, problems, res):
 
 
 # --------------------------------------------------------------------------------------------
+# C15: "the derive refuses a field whose type is not Collect" over every syntactic form of a field type
+# --------------------------------------------------------------------------------------------
+TF_PRE = """#![allow(dead_code, unused)]
+use gc_arena::{Arena, Collect, Gc, GcWeak, Rootable, lock::{Lock, RefLock}};
+use std::cell::{Cell, RefCell};
+use std::marker::PhantomData;
+use std::sync::atomic::{AtomicUsize, Ordering};
+static DROPPED: AtomicUsize = AtomicUsize::new(0);
+/// a garbage collected value that counts its destructor runs
+#[derive(Collect)]
+#[collect(require_static)]
+struct Tracked(u64);
+impl Drop for Tracked {
+    fn drop(&mut self) {
+        DROPPED.fetch_add(1, Ordering::SeqCst);
+    }
+}
+/// `'static`, no `Collect` impl
+struct NotCollect(u8);
+/// holds an arena pointer, no `Collect` impl
+struct Hidden<'gc>(Gc<'gc, Tracked>);
+/// a derived generic wrapper / a derived holder (controls)
+#[derive(Collect)]
+#[collect(no_drop)]
+struct Wrap<T>(T);
+#[derive(Collect)]
+#[collect(no_drop)]
+struct Wrapped<'gc>(Gc<'gc, Tracked>);
+"""
+NEWT = "Gc::new(mc, Tracked(17))"
+WRAP_D = "(D struct ((no_drop)) 0 1 nodrop (V tuple () (F () (P 0))))"
+# (name, syn::Type form, NOT-Collect field type, model desc, Collect control type, model desc, value expression for
+#  the run (None: the form hides no allocation, acceptance alone is the failing input), control value)
+TYPE_FORMS = [
+    ("ref_gc", "Reference", "&'gc Tracked", "(R n L)", "&'static Tracked", "(R s L)", f"{NEWT}.as_ref()", None),
+    ("ref_mut_gc", "Reference(mut)", "&'gc mut Gc<'gc, Tracked>", "(R n G)", "&'static u8", "(R s L)",
+     f"Box::leak(Box::new({NEWT}))", None),
+    ("ref_static_notcollect_referent", "Reference", "&'gc NotCollect", "(R n OS)", "&'static NotCollect", "(R s OS)", None, None),
+    ("tuple", "Tuple", "(u8, Hidden<'gc>)", "(C tuple L ON)", "(u8, Gc<'gc, Tracked>)", "(C tuple L G)", f"(1u8, Hidden({NEWT}))", None),
+    ("array", "Array", "[Hidden<'gc>; 1]", "(C array1 ON)", "[Gc<'gc, Tracked>; 1]", "(C array1 G)", f"[Hidden({NEWT})]", None),
+    ("boxed_slice", "Slice (in Box)", "Box<[Hidden<'gc>]>", "(C box (C vec ON))", "Box<[GcWeak<'gc, Tracked>]>", "(C box (C vec W))",
+     f"vec![Hidden({NEWT})].into_boxed_slice()", None),
+    ("ptr", "Ptr", "*const Tracked", "OS", "u8", "L", f"Gc::as_ptr({NEWT})", None),
+    ("bare_fn", "BareFn", "fn(Gc<'gc, Tracked>)", "ON", "PhantomData<fn(Gc<'gc, Tracked>)>", "L", None, None),
+    ("paren", "Paren", "(Hidden<'gc>)", "ON", "(Gc<'gc, Tracked>)", "G", f"Hidden({NEWT})", None),
+    ("path", "Path", "Hidden<'gc>", "ON", "Wrapped<'gc>", "(A (D struct ((no_drop)) 1 0 nodrop (V tuple () (F () G))))", f"Hidden({NEWT})", None),
+    ("path_box", "Path<args>", "Box<Hidden<'gc>>", "(C box ON)", "Box<GcWeak<'gc, Tracked>>", "(C box W)", f"Box::new(Hidden({NEWT}))", None),
+    ("path_option_ref", "Path<args>", "Option<&'gc Tracked>", "(C option (R n L))", "Option<&'static Tracked>", "(C option (R s L))",
+     f"Some({NEWT}.as_ref())", None),
+    ("path_cell_gc", "Path<args>", "Cell<Gc<'gc, Tracked>>", "ON", "Lock<Gc<'gc, Tracked>>", "(C lock G)", f"Cell::new({NEWT})", None),
+    ("path_refcell_gc", "Path<args>", "RefCell<Gc<'gc, Tracked>>", "ON", "RefLock<Gc<'gc, Tracked>>", "(C reflock G)", f"RefCell::new({NEWT})", None),
+    ("path_vec_notcollect", "Path<args>", "Vec<NotCollect>", "(C vec OS)", "Vec<u8>", "(C vec L)", None, None),
+    ("path_derived_generic", "Path<args>", "Wrap<Hidden<'gc>>", f"(A {WRAP_D} ON)", "Wrap<Gc<'gc, Tracked>>", f"(A {WRAP_D} G)",
+     f"Wrap(Hidden({NEWT}))", None),
+]
+# the shapes the field is put in: (shape name, mode, declaration template, model variants template, constructor template)
+TF_SHAPES = [
+    ("named.no_drop", "no_drop", "struct S<'gc> {{ a: u8, marker: PhantomData<Gc<'gc, ()>>, f: {ty} }}",
+     "struct", "(V named () (F () L) (F () L) (F () {d}))", "S {{ a: 1, marker: PhantomData, f: {v} }}"),
+    ("named.unsafe_drop", "unsafe_drop", "struct S<'gc> {{ f: {ty}, a: u8, marker: PhantomData<Gc<'gc, ()>> }}",
+     "struct", "(V named () (F () {d}) (F () L) (F () L))", "S {{ f: {v}, a: 1, marker: PhantomData }}"),
+    ("tuple.unsafe_drop", "unsafe_drop", "struct S<'gc>(u8, PhantomData<Gc<'gc, ()>>, {ty});",
+     "struct", "(V tuple () (F () L) (F () L) (F () {d}))", "S(1, PhantomData, {v})"),
+    ("enum.no_drop", "no_drop", "enum S<'gc> {{ A, M(PhantomData<Gc<'gc, ()>>), B {{ a: u8, f: {ty} }}, C({ty}) }}",
+     "enum", "(V unit ()) (V tuple () (F () L)) (V named () (F () L) (F () {d})) (V tuple () (F () {d}))", "S::C({v})"),
+]
+TF_EXTRA = [
+    # a reference with a DECLARED lifetime other than the gc lifetime, and the None-delimited `Group` form that a
+    # `$t:ty` macro fragment produces
+    dict(name="ref_declared_lifetime.named.no_drop", form="Reference", cls="not_collect",
+         decl="#[derive(Collect)]\n#[collect(no_drop, gc_lifetime = 'gc)]\nstruct S<'gc, 'a> { g: Gc<'gc, u8>, f: &'a Tracked }",
+         desc="(A (D struct ((no_drop (gc_lifetime 0))) 2 0 nodrop (V named () (F () G) (F () (R n L)))))",
+         root="S<'_, '_>", ctor=f"S {{ g: Gc::new(mc, 1u8), f: {NEWT}.as_ref() }}", ty="&'a Tracked"),
+    dict(name="ref_declared_lifetime.named.no_drop.twin", form="Reference", cls="ok",
+         decl="#[derive(Collect)]\n#[collect(no_drop, gc_lifetime = 'gc)]\nstruct S<'gc, 'a> { g: Gc<'gc, u8>, f: (&'static Tracked, PhantomData<&'a ()>) }",
+         desc="(A (D struct ((no_drop (gc_lifetime 0))) 2 0 nodrop (V named () (F () G) (F () (C tuple (R s L) L)))))",
+         root=None, ctor=None, ty="(&'static Tracked, PhantomData<&'a ()>)"),
+    dict(name="group_ref_gc.named.no_drop", form="Group (macro `$t:ty`)", cls="not_collect",
+         decl="macro_rules! mk { ($t:ty) => { #[derive(Collect)]\n#[collect(no_drop)]\nstruct S<'gc> { a: u8, marker: PhantomData<Gc<'gc, ()>>, f: $t } } }\nmk!(&'gc Tracked);",
+         desc="(A (D struct ((no_drop)) 1 0 nodrop (V named () (F () L) (F () L) (F () (R n L)))))",
+         root="S<'_>", ctor=f"S {{ a: 1, marker: PhantomData, f: {NEWT}.as_ref() }}", ty="&'gc Tracked (through $t:ty)"),
+    dict(name="group_ref_gc.named.no_drop.twin", form="Group (macro `$t:ty`)", cls="ok",
+         decl="macro_rules! mk { ($t:ty) => { #[derive(Collect)]\n#[collect(no_drop)]\nstruct S<'gc> { a: u8, marker: PhantomData<Gc<'gc, ()>>, f: $t } } }\nmk!(&'static Tracked);",
+         desc="(A (D struct ((no_drop)) 1 0 nodrop (V named () (F () L) (F () L) (F () (R s L)))))",
+         root=None, ctor=None, ty="&'static Tracked (through $t:ty)"),
+]
+TF_MAIN = """
+// the value lives in the ROOT; nothing else refers to the allocation behind the field.  No pointer is
+// followed after the collections: the verdict is the destructor counter alone.
+fn main() {{
+    let mut arena = Arena::<Rootable![{root}]>::new(|mc| {ctor});
+    arena.finish_cycle();
+    arena.finish_cycle();
+    let dropped = DROPPED.load(Ordering::SeqCst);
+    println!("destructors_run={{}}", dropped);
+    std::process::exit(if dropped == 0 {{ 0 }} else {{ 3 }});
+}}
+"""
+MODEL_CTORS = {"leaf": r"(?<![A-Za-z])L(?![A-Za-z])", "gc": r"(?<![A-Za-z])G(?![A-Za-z])", "weak": r"(?<![A-Za-z])W(?![A-Za-z])",
+               "opaque": r"(?<![A-Za-z])O[SN](?![A-Za-z])", "param": r"\(P ", "ref": r"\(R ", "con": r"\(C ", "adt": r"\(A "}
+
+
+def _type_form_probes():
+    P = []
+    for name, form, bad, dbad, good, dgood, val, _ in TYPE_FORMS:
+        for shape, mode, decl, kind, variants, ctor in TF_SHAPES:
+            for twin in (False, True):
+                ty, d = (good, dgood) if twin else (bad, dbad)
+                P.append(dict(name=f"{name}.{shape}" + (".twin" if twin else ""), form=form, cls="ok" if twin else "not_collect",
+                              decl=f"#[derive(Collect)]\n#[collect({mode})]\n" + decl.format(ty=ty),
+                              desc=f"(A (D {kind} (({mode})) 1 0 nodrop {variants.format(d=d)}))",
+                              root=None if (twin or val is None) else "S<'_>",
+                              ctor=None if (twin or val is None) else ctor.format(v=val), ty=ty))
+    P += [dict(p) for p in TF_EXTRA]
+    for p in P:
+        p["src"] = TF_PRE + p["decl"] + "\n"
+    return P
+
+
+def _run_accepted(p, pdir, rlib, deps):
+    """An ACCEPTED not-Collect field: build the program that keeps such a value in the arena root and run it."""
+    prog = TF_PRE + p["decl"] + "\n" + TF_MAIN.format(root=p["root"], ctor=p["ctor"])
+    path = os.path.join(pdir, "run_" + p["name"].replace(".", "_") + ".rs")
+    exe = path[:-3]
+    open(path, "w").write(prog)
+    rc, out = _sh(["rustc", "--edition", "2024", "--crate-name", "probe_run", "-o", exe, "--extern", f"gc_arena={rlib}",
+                   "-L", f"dependency={deps}", path], timeout=600)
+    if rc != 0:
+        return prog, "the run program does not compile: " + " | ".join(l for l in out.splitlines() if l.startswith("error"))[:300], None
+    try:
+        rc, out = _sh([exe], timeout=120)
+    except subprocess.TimeoutExpired:
+        return prog, "the run program timed out", None
+    m = re.search(r"destructors_run=(\d+)", out)
+    return prog, f"exit {rc}, {out.strip()[:200]}", (int(m.group(1)) if m else None)
+
+
+def _c15_type_forms(rlib, deps, model_cmd, problems, res, other_descs):
+    probes = _type_form_probes()
+    pdir = os.path.join(WORK, "collect_probes")
+    os.makedirs(pdir, exist_ok=True)
+    with concurrent.futures.ThreadPoolExecutor(max_workers=min(8, os.cpu_count() or 4)) as ex:
+        results = {n: (rc, out) for n, rc, out in ex.map(lambda p: _run_probe(p, pdir, rlib, deps), probes)}
+    model = {}
+    if model_cmd is not None:
+        mrc, mlines = _ask_model(model_cmd, [f"check {p['name']} {p['desc']}" for p in probes])
+        for l in mlines:
+            nm, _, rest = l.partition(" ")
+            model[nm] = rest
+    table = []
+    nacc = 0
+    for p in probes:
+        rc, out = results[p["name"]]
+        res["evaluations"] += 1
+        res["programs"] += 1
+        res["disagreements_checked"] += 1
+        res["_nontrivial"].add(("type-form", p["name"]))
+        pred = model.get(p["name"], "")
+        pm = re.match(r"reject:(\w+)", pred)
+        pred_cls = pm.group(1) if pm else ("ok" if pred.startswith("ok") else "?" + pred)
+        compiled = rc == 0
+        errs = [l for l in out.splitlines() if l.startswith("error")]
+        row = dict(probe=p["name"], form=p["form"], field_type=p["ty"], expected=p["cls"], rustc="ok" if compiled else "error", model=pred_cls)
+        hdr = [f"C15 type-form probe `{p['name']}`: a field of syntactic form {p['form']}, type `{p['ty']}`, "
+               + ("which is NOT Collect: the derive must refuse it" if p["cls"] != "ok" else "which is Collect (control twin)"),
+               "compile: rustc --edition 2024 --crate-type lib --extern gc_arena=<rlib> -L dependency=<deps> probe.rs",
+               f"model query: check {p['name']} {p['desc']}", f"model answer: {pred}",
+               f"rustc: {'compiled' if compiled else 'failed'}"] + ["  " + e for e in errs[:4]]
+        if p["cls"] != "ok":
+            if compiled:
+                nacc += 1
+                row["verdict"] = "ACCEPTED"
+                body = p["src"].splitlines()
+                text = (f"a field of type `{p['ty']}` ({p['form']}), which is not Collect, is ACCEPTED by the derive in "
+                        f"`{p['name']}`: it gets no NEEDS_TRACE term, no trace call and no bound")
+                if p["root"] and nacc <= 4:
+                    prog, how, dropped = _run_accepted(p, pdir, rlib, deps)
+                    body = prog.splitlines()
+                    hdr += ["run: the same declaration as arena ROOT holding a value whose field hides a live allocation, "
+                            "finish_cycle() x2, destructor counter (complete program below; "
+                            "rustc --edition 2024 --extern gc_arena=<rlib> -L dependency=<deps> prog.rs && ./prog)", "run result: " + how]
+                    row["run"] = how
+                    if dropped:
+                        text += f"; run with such a value in the root: {dropped} allocation(s) destructed by two finish_cycle()s while the root still refers to them"
+                if nacc <= 4:
+                    problems.append(_problem(f"type-form-{p['name']}", text, True, header=hdr, lines=body,
+                                             key=f"derive-accepts-not-collect-{p['name']}"))
+            elif not re.search(CLASS_RE["not_collect"] + "|" + CLASS_RE["not_static"], out):
+                # `FieldTy: Collect<'gc>` fails either as E0277 (no impl at all) or, when the only impl asks for
+                # `'static` (`&'static T`, `Cell<T: 'static>`), as "`'gc` must outlive `'static`"
+                row["verdict"] = "wrong-class"
+                problems.append(_problem(f"type-form-{p['name']}", f"type-form probe `{p['name']}` fails to compile but neither with "
+                                         "E0277 `…: Collect` nor with the region error of an impl that needs 'static (the probe no longer "
+                                         "checks the clause)", False, header=hdr, lines=p["src"].splitlines()))
+            else:
+                row["verdict"] = "rejected"
+        else:
+            row["verdict"] = "compiles" if compiled else "twin-broken"
+            if not compiled:
+                problems.append(_problem(f"type-form-{p['name']}", f"control twin `{p['name']}` (field type `{p['ty']}`, Collect) no longer "
+                                         "compiles", False, header=hdr, lines=p["src"].splitlines()))
+        if model_cmd is not None and pred_cls != p["cls"]:
+            row["verdict"] += "+model-differs"
+            problems.append(_problem(f"type-form-model-{p['name']}", f"the derive model predicts `{pred_cls}` for type-form probe "
+                                     f"`{p['name']}`, expected `{p['cls']}` (model / implementation disagreement)", False,
+                                     header=hdr, lines=p["src"].splitlines()))
+        table.append(row)
+    if nacc > 4:
+        problems.append(_problem("type-form-more", f"{nacc - 4} further not-Collect field forms are accepted (see the evidence table)", False))
+    # census: the descriptions sent to the model (this family + the other rejection probes) exhibit every
+    # constructor of the model's type language (cf. GcArena.C15.probe_corpus_covers_every_constructor)
+    alld = " ".join([p["desc"] for p in probes] + list(other_descs))
+    census = {k: len(re.findall(rx, alld)) for k, rx in MODEL_CTORS.items()}
+    missing = [k for k, n in census.items() if n == 0]
+    if missing:
+        problems.append(_problem("probe-corpus-census", "the rejection-probe corpus no longer exhibits the model type constructor(s) "
+                                 + ", ".join(missing), False))
+    res["summary"]["type_form_probes"] = table
+    res["summary"]["probe_corpus_constructor_census"] = census
+
+
+# --------------------------------------------------------------------------------------------
 # C16: container grid
 # --------------------------------------------------------------------------------------------
 C16_SNIPPET = """// replay: in /verif/harness_collect run `cargo run --offline{feat} -- c16 | grep -F '{grep}'`
@@ -883,6 +1105,7 @@ def run(prop, tier, seed, repo=None):
             _c15_probes(rlib, deps, model_cmd, problems, res)
         if rlib:
             _c15_self_spellings(rlib, deps, problems, res)
+            _c15_type_forms(rlib, deps, model_cmd, problems, res, [p["desc"] for p in _probe_list()])
     else:
         res["rule"] = ("a container case is non-trivial when at least one pointer was inserted (distinct impl x parameter position "
                        "x kind x size x element position x feature set); every survival run counts")
